@@ -559,6 +559,13 @@ def resolve_table(table):
                     if r["aid"] == a["aid"] and "override" in a:
                         r["default_c"] = default_term(a["override"], heap0)
                         r["factory"] = None
+                    if r["aid"] == a["aid"] and "dnc" in a:
+                        # a spec subclass's OWN decorator decides do_not_copy for the attributes it
+                        # inherits (SpecClass.bootstrap rebuilds / copies the inherited Attr with
+                        # `attr in self.do_not_copy`); the renderer lists exactly the entries with
+                        # a true "dnc" in the subclass's decorator.  Existing generators restate
+                        # the parent's flag, so this changes nothing for them.
+                        r["dnc"] = bool(a["dnc"])
                 continue
             r = dict(a)
             r["owner"] = c["id"]
